@@ -226,6 +226,7 @@ func init() {
 			execs := []string{"e1", "e2", "e3"}
 			procs := []string{"pA", "pB"}
 			steps := 15 + r.Intn(40)
+			crashy := r.Intn(4) == 0
 			for i := 0; i < steps; i++ {
 				k := r.Intn(4)
 				for j := 0; j < k; j++ {
@@ -239,6 +240,10 @@ func init() {
 					}
 				}
 				s.Tick(s.now + pick(r, int64(0), 1, 1, 1, 2, 3, 6))
+				if crashy && r.Intn(12) == 0 {
+					// the server is restarted on the same database: leases that are running keep running
+					s.Crash()
+				}
 			}
 			if !s.Drain(1, 300) {
 				c.Rep.Inconclusive++
